@@ -194,21 +194,15 @@ func vfCpShadow(ref []vfEntry, delim string) bool {
 	return false
 }
 
+// vfClassOf returns the (single) known-defect class a configuration falls into, "" if none.
 func vfClassOf(fsys *vfMemFS, ref []vfEntry, delim string, withMarker bool) string {
-	c := ""
 	if vfLowSibling(fsys.root) {
-		c += "@low-sibling"
-	}
-	if delim == "" && withMarker && vfHasDirObj(fsys.root, false) {
-		c += "@dirobj-marker-nodelim"
+		return "@low-sibling"
 	}
 	if delim != "" && delim != "/" && vfHasDirObj(fsys.root, true) {
-		c += "@dirobj-with-children-nonslash-delim"
+		return "@dirobj-with-children-nonslash-delim"
 	}
-	if delim != "" && withMarker && vfCpShadow(ref, delim) {
-		c += "@cp-shadowed-by-marker"
-	}
-	return c
+	return ""
 }
 
 func vfGetObj(fsys *vfMemFS) GetObjFunc {
